@@ -20,6 +20,9 @@ pub struct Ctl {
     pub blackhole: AtomicBool,
     /// nothing is forwarded while set, the connection stays open
     pub frozen: AtomicBool,
+    /// remaining bytes until the link freezes by itself (per direction); negative = not armed
+    pub freeze_up: AtomicI64,
+    pub freeze_down: AtomicI64,
     pub cuts_done: AtomicU64,
     pub bytes_up: AtomicU64,
     pub bytes_down: AtomicU64,
@@ -43,6 +46,8 @@ impl Proxy {
             cut_down: AtomicI64::new(-1),
             blackhole: AtomicBool::new(blackhole),
             frozen: AtomicBool::new(false),
+            freeze_up: AtomicI64::new(-1),
+            freeze_down: AtomicI64::new(-1),
             cuts_done: AtomicU64::new(0),
             bytes_up: AtomicU64::new(0),
             bytes_down: AtomicU64::new(0),
@@ -80,6 +85,10 @@ impl Proxy {
 impl Ctl {
     pub fn arm(&self, up: bool, after: i64) {
         if up { &self.cut_up } else { &self.cut_down }.store(after, Ordering::SeqCst);
+    }
+    /// freeze the link after `after` more bytes were forwarded in the given direction
+    pub fn arm_freeze(&self, up: bool, after: i64) {
+        if up { &self.freeze_up } else { &self.freeze_down }.store(after, Ordering::SeqCst);
     }
     pub fn freeze(&self, on: bool) {
         self.frozen.store(on, Ordering::SeqCst);
@@ -141,6 +150,24 @@ async fn pump(
             r = r.read(&mut buf) => match r { Ok(0) | Err(_) => return, Ok(n) => n },
             _ = &mut kicked => { continue }
         };
+        // armed freeze: forward exactly the remaining bytes, then hold the rest of this chunk
+        let fz = if up { &ctl.freeze_up } else { &ctl.freeze_down };
+        let frem = fz.load(Ordering::SeqCst);
+        let mut start = 0usize;
+        if frem >= 0 {
+            if (n as i64) >= frem {
+                if w.write_all(&buf[..frem as usize]).await.is_err() {
+                    return;
+                }
+                let _ = w.flush().await;
+                bytes.fetch_add(frem as u64, Ordering::SeqCst);
+                start = frem as usize;
+                fz.store(-1, Ordering::SeqCst);
+                ctl.frozen.store(true, Ordering::SeqCst);
+            } else {
+                fz.store(frem - n as i64, Ordering::SeqCst);
+            }
+        }
         // frozen: hold the bytes until the link is thawed or cut
         loop {
             let kicked = ctl.kick.notified();
@@ -154,10 +181,12 @@ async fn pump(
             }
             kicked.await;
         }
+        let n = n - start;
+        let chunk = &buf[start..start + n];
         let rem = cut.load(Ordering::SeqCst);
         if rem >= 0 && (n as i64) >= rem {
             // forward exactly `rem` more bytes, then cut
-            let _ = w.write_all(&buf[..rem as usize]).await;
+            let _ = w.write_all(&chunk[..rem as usize]).await;
             let _ = w.flush().await;
             bytes.fetch_add(rem as u64, Ordering::SeqCst);
             cut.store(-1, Ordering::SeqCst);
@@ -167,7 +196,7 @@ async fn pump(
         if rem >= 0 {
             cut.store(rem - n as i64, Ordering::SeqCst);
         }
-        if w.write_all(&buf[..n]).await.is_err() {
+        if w.write_all(chunk).await.is_err() {
             return;
         }
         bytes.fetch_add(n as u64, Ordering::SeqCst);
